@@ -620,3 +620,7 @@ def combine_branch_free(ck, P, R="ATOM/combine-branch-free"):
                   "shortcut for one value (e.g. crc2 == 0 taken for an empty block) is wrong for non-empty blocks with that CRC" % f.path,
                   where(f, bad[0] if bad else None))
     ck.floor(R, n, 2)
+
+# session 5 (round 12)
+EXPLANATION = EXPLANATION + " " + (
+    'ATOM/combine-branch-free (round 12): crc32_combine and crc32_combine_op do not branch on a checksum argument.')
